@@ -659,7 +659,10 @@ def check_factories(ix, rep):
             raise AnalysisError('%s.%s vanished' % (modn, fn))
         rep.analysed(f)
         rep.unit(m.rel)
-        chain = [s for s in f.node.body if isinstance(s, ast.If)][0]
+        chains_ = [s for s in f.node.body if isinstance(s, ast.If)]
+        if not chains_:
+            raise AnalysisError('%s: the interpreters are not selected by an if/elif chain over Semantics (a table or another form is not interpreted)' % f.where)
+        chain = chains_[0]
         node = chain
         seen = set()
         while True:
